@@ -282,15 +282,58 @@ def make_truth_table(rows, n, rng):
     return register(TruthTable(t), n, rows)
 
 
+class _Seq:
+    """A minimal read-only Sequence that is neither list nor tuple (what a callable may legally return)."""
+    def __init__(self, items):
+        self._items = tuple(items)
+
+    def __len__(self):
+        return len(self._items)
+
+    def __getitem__(self, i):
+        return self._items[i]
+
+    def __iter__(self):
+        return iter(self._items)
+
+    def __eq__(self, other):
+        try:
+            return len(other) == len(self._items) and all(a == b for a, b in zip(self._items, other))
+        except TypeError:
+            return NotImplemented
+
+    __hash__ = None
+
+
+import collections.abc as _abc
+_abc.Sequence.register(_Seq)
+
+
+def seq_flavour(rng):
+    """The container type a user callable returns its outputs in: the protocol says Sequence, so list, tuple and a
+    user-defined Sequence are all ordinary."""
+    r = rng.random()
+    if r < 0.5:
+        CUR['ctx'].count('callable_returns:list')
+        return list
+    if r < 0.85:
+        CUR['ctx'].count('callable_returns:tuple')
+        return tuple
+    CUR['ctx'].count('callable_returns:user_sequence')
+    return _Seq
+
+
 def make_pyfunction(rows, n, rng):
     from cirbo.core.python_function import PyFunction
     m = len(rows)
+
+    wrap = seq_flavour(rng)
 
     def f(args):
         k = 0
         for v in args:
             k = (k << 1) | (1 if v else 0)
-        return [bit(r, k) for r in rows]
+        return wrap([bit(r, k) for r in rows])
 
     if rng.random() < 0.3 and 1 <= n <= 4:
         names = ['a', 'b', 'c', 'd'][:n]
@@ -598,15 +641,19 @@ def check_extras(case, ctx):
                 V('TruthTableModel.define', 'completion', 'defined function has table %r, expected %r' % (f.get_truth_table(), wl))
             if [list(r) for r in tm.get_model_truth_table()] != model_tab:
                 V('TruthTableModel.define', 'model_modified', 'define modified the model')
+            # the completed function is a function like any other: the whole protocol is asked of it
+            drive(register(f, n, want), n, m, rng)
         except Exception as e:
             ctx.unexpected('TruthTableModel.define', e, case)
         # PyFunctionModel
         try:
+            wrap = seq_flavour(rng)
+
             def mf(args):
                 k = 0
                 for v in args:
                     k = (k << 1) | (1 if v else 0)
-                return [model_tab[j][k] for j in range(m)]
+                return wrap([model_tab[j][k] for j in range(m)])
 
             pm = PyFunctionModel(mf, n, output_size=(m if rng.random() < 0.5 else None))
             if [list(r) for r in pm.get_model_truth_table()] != model_tab:
@@ -624,6 +671,8 @@ def check_extras(case, ctx):
                 if list(f.evaluate(x)) != [wl[j][k] for j in range(m)]:
                     V('PyFunctionModel.define', 'completion', 'defined function evaluates %r at %r' % (f.evaluate(x), x))
                     break
+            drive(register(f, n, want), n, m, rng)
+            ctx.count('completed_function_driven')
         except Exception as e:
             ctx.unexpected('PyFunctionModel.define', e, case)
         # Function.define on complete functions: empty definition returns an equal function, non-empty is rejected
